@@ -276,7 +276,7 @@ func runC20(r *rt.Runner) {
 		c.Count("boundary sets")
 	})
 	// (c) sampled 32-bit integers
-	nSamp := r.N(200, 4000)
+	nSamp := r.N(600, 6000)
 	for k := 0; k < nSamp; k++ {
 		r.Case("integers/sampled", func(c *rt.C) {
 			rng := c.Rand()
@@ -294,7 +294,7 @@ func runC20(r *rt.Runner) {
 		})
 	}
 	// (d) fractions: single deltas incl. all k/q, near-integers, worst cases for q <= 107
-	nFrac := r.N(1000, 15000)
+	nFrac := r.N(4000, 30000)
 	for k := 0; k < nFrac; k++ {
 		r.Case("fractions", func(c *rt.C) {
 			rng := c.Rand()
@@ -309,7 +309,7 @@ func runC20(r *rt.Runner) {
 		})
 	}
 	// (e) long paths with fractional steps (drift)
-	nPath := r.N(300, 3000)
+	nPath := r.N(800, 4000)
 	for k := 0; k < nPath; k++ {
 		r.Case("long-path", func(c *rt.C) {
 			rng := c.Rand()
